@@ -627,11 +627,15 @@ class ndarray:
         return dot(b, a)
 
     # -- reductions
+    def _truth(self):
+        # numpy's truth value of a number: non-zero
+        return [x if isinstance(x, (SB, builtins.bool)) else (x != 0) for x in self.items]
+
     def all(self, axis=None):
-        return builtins.bool(land(*self.items)) if self.items else True
+        return builtins.bool(land(*self._truth())) if self.items else True
 
     def any(self, axis=None):
-        return builtins.bool(lor(*self.items)) if self.items else False
+        return builtins.bool(lor(*self._truth())) if self.items else False
 
     def sum(self, axis=None):
         if axis is not None and self.ndim == 2:
